@@ -394,6 +394,7 @@ pub fn read_multi(cache: &Cache, variant: usize, keys: &[u64]) -> Vec<Option<u64
     let refs: Vec<&u64> = keys.iter().collect();
     match variant % 3 {
         0 => {
+            // the result is a map: a key asked for twice appears once; every requested position is answered from it
             let map: HashMap<&u64, Option<u64>> = cache.multi_get(refs);
             keys.iter().map(|k| map.get(k).copied().flatten()).collect()
         }
